@@ -583,6 +583,20 @@ func (g *FnGen) evalCall(x ECall, ctx *EvalCtx) Val {
 	case "base":
 		v := g.eval(x.Args[0], ctx)
 		return Val{T: "(s_base " + v.T + ")", S: sortRef}
+	case "deref":
+		v := g.eval(x.Args[0], ctx)
+		if v.Go == nil {
+			efail("deref of untyped value")
+		}
+		pt, ok := v.Go.Underlying().(*types.Pointer)
+		if !ok {
+			efail("deref of non-pointer %v", v.Go)
+		}
+		if _, ok := pt.Elem().Underlying().(*types.Struct); ok {
+			return g.mkVal(g.loadStruct(ctx.st, v.T, pt.Elem()), pt.Elem())
+		}
+		k := g.D.cellKeyT(pt.Elem())
+		return g.mkVal(sel(g.D.get(ctx.st, k), v.T), pt.Elem())
 	case "toInt":
 		v := g.eval(x.Args[0], ctx)
 		if v.Lit != nil {
@@ -604,6 +618,29 @@ func (g *FnGen) evalCall(x ECall, ctx *EvalCtx) Val {
 			efail("cast of non-integer %s", v.S)
 		}
 		return Val{T: convInt(v.T, bvWidth(v.S), bvWidth(s), v.Signed), S: s, Signed: signed, Go: gt}
+	}
+	// aliases of pure external functions: the same uninterpreted function the call sites use
+	if al, ok := g.S.Aliases[x.Fn]; ok {
+		var as, ts []string
+		for _, a := range x.Args {
+			v := g.eval(a, ctx)
+			if v.Lit != nil {
+				v = Val{T: bvLit(v.Lit, 64), S: sortBV64}
+			}
+			as = append(as, v.S)
+			ts = append(ts, v.T)
+		}
+		rs, signed, gt := ctypeByName(g.D, g.P, al.ResType)
+		if rs == "" {
+			efail("alias %s: unknown result type %s", x.Fn, al.ResType)
+		}
+		fn := fmt.Sprintf("pf_%s_%d", sanitize(al.Func), 0)
+		g.D.declare("pure:"+fn, fmt.Sprintf("(declare-fun %s (%s) %s)", fn, strings.Join(as, " "), rs))
+		t := fn
+		if len(ts) > 0 {
+			t = fmt.Sprintf("(%s %s)", fn, strings.Join(ts, " "))
+		}
+		return Val{T: t, S: rs, Signed: signed, Go: gt}
 	}
 	// ghost fields
 	if gf, ok := g.S.GhostFields[x.Fn]; ok {
@@ -697,7 +734,7 @@ func (g *FnGen) assumeClause(guard string, e Expr, ctx *EvalCtx, origin string) 
 		if ctx.oldSt != nil {
 			c.oldSt = ctx.oldSt.clone()
 		}
-		g.qfacts = append(g.qfacts, QFact{e: e, ctx: c, guard: guard})
+		g.root().qfacts = append(g.root().qfacts, QFact{e: e, ctx: c, guard: guard})
 	}
 }
 
@@ -746,7 +783,7 @@ func (g *FnGen) obligeClause(kind, label, guard string, c Clause, ctx *EvalCtx, 
 			if hv.Lit != nil {
 				ht = bvLit(hv.Lit, 64)
 			}
-			for _, qf := range g.qfacts {
+			for _, qf := range g.root().qfacts {
 				ic := qf.ctx
 				ic.instAt = map[string]string{h.Name: ht}
 				inst := g.evalBool(qf.e, &ic)
@@ -756,6 +793,6 @@ func (g *FnGen) obligeClause(kind, label, guard string, c Clause, ctx *EvalCtx, 
 	}
 	ob := g.oblige(kind, label, guard, t, c.Src, pos)
 	ob.extras = extras
-	g.items[ob.item].Extras = extras
+	g.root().items[ob.item].Extras = extras
 	return ob
 }
